@@ -135,3 +135,76 @@ pub fn k_safe(m0: Option<u64>, m1: Option<u64>, node: u8) -> u64 {
         k_cut(b)
     }
 }
+
+/// merge kernel, per key: what `S.merge(O)` leaves at a key where S holds `s` and O holds `o`;
+/// `ls` / `lo` are S's / O's cut-offs for the origin of the stamp they are compared with.
+/// (Read off OrSWotSet::merge: a peer tombstone older than S's cut-off is ignored; an own live entry the
+/// peer does not hold live and that is older than the PEER's cut-off is dropped; otherwise greatest stamp wins,
+/// a delete winning an exact tie against an own entry.)
+// verus-ensures: r == sk_merge(s, o, s_before_lo, o_before_ls)
+pub fn k_merge(s: Slot, o: Slot, s_before_lo: bool, o_before_ls: bool) -> Slot {
+    match o {
+        Slot::Live(t) => match s {
+            Slot::Empty => Slot::Live(t),
+            Slot::Live(e) => {
+                if e < t {
+                    Slot::Live(t)
+                } else {
+                    Slot::Live(e)
+                }
+            },
+            Slot::Dead(d) => {
+                if t < d {
+                    Slot::Dead(d)
+                } else {
+                    Slot::Live(t)
+                }
+            },
+        },
+        Slot::Dead(t) => {
+            if o_before_ls {
+                // the peer's tombstone is ignored
+                match s {
+                    Slot::Live(e) => {
+                        if s_before_lo {
+                            Slot::Empty
+                        } else {
+                            Slot::Live(e)
+                        }
+                    },
+                    _ => s,
+                }
+            } else {
+                match s {
+                    Slot::Empty => Slot::Dead(t),
+                    Slot::Dead(d) => {
+                        if d < t {
+                            Slot::Dead(t)
+                        } else {
+                            Slot::Dead(d)
+                        }
+                    },
+                    Slot::Live(e) => {
+                        if s_before_lo {
+                            Slot::Dead(t)
+                        } else if e < t {
+                            Slot::Dead(t)
+                        } else {
+                            Slot::Live(e)
+                        }
+                    },
+                }
+            }
+        },
+        Slot::Empty => match s {
+            Slot::Live(e) => {
+                if s_before_lo {
+                    Slot::Empty
+                } else {
+                    Slot::Live(e)
+                }
+            },
+            _ => s,
+        },
+    }
+}
